@@ -11,14 +11,27 @@ package main
 //   "sdf"  anisotropic ellipsoid-like smooth field (sqrt): triangles are compared as triples of weld cells
 //          (modeling.Vector3ToInt(p, 3), the quantisation March itself welds with), which is what the output determines
 //          independently of block completion order.
-// Oracle lines: c10.holds.same_tri_multiset (theorem predicate: equal multisets), c10.holds.same_output (sample multisets).
+// Case categories (all in both tiers, budgets from -n):
+//   placement  one field (sometimes two) at 8 placements spanning 1..8 blocks, all three AddField variants, all marched;
+//   seam       seam-hugging shapes: the surface crosses a block boundary by less than one cell, so that the block on one side
+//              holds only values on ONE side of the cutoff and its triangles come from the seam cubes alone (cell 99 → the
+//              neighbour's cell 0); per axis, at corners, both orientations, inverted fields (uniformly-inside block),
+//              cubesPerUnit 1/2/4/10, cutoff 0 / ±¼ cell; MarchParallel vs March;
+//   history    2–4 AddField* calls on ONE canvas and attribute with OVERLAPPING domains (same shape twice, shifted
+//              overlapping shapes, a small field inside a big one): after EACH call the canvas cells (read with
+//              reflect/unsafe) and the sample multisets of each parallel variant are compared with the sequential canvas,
+//              and the whole history is replayed by the Lean job model (`c10.accumulate`, read-modify-write `+=`).
+// Oracle lines: c10.holds.same_tri_multiset (theorem predicate: equal multisets), c10.holds.same_output (sample multisets,
+// canvas cells).
 
 import (
 	"fmt"
 	"math"
+	"reflect"
 	"sort"
 	"strings"
 	"sync"
+	"unsafe"
 
 	"github.com/EliCDavis/polyform/math/geometry"
 	"github.com/EliCDavis/polyform/math/sample"
@@ -30,27 +43,48 @@ import (
 func init() { streams["c10m"] = runC10M }
 
 type c10Shape struct {
-	kind       string // l1 | sdf
+	kind       string // l1 | l1inv | sdf
 	cx, cy, cz float64
 	r          float64
 	ax, ay, az float64 // axis scales (asymmetry)
 }
 
+type c10Sample struct {
+	pos string
+	p   vector3.Float64
+	v   float64
+}
+
 type c10Sampler struct {
 	mu   sync.Mutex
-	seen []string
+	seen []c10Sample
 	on   bool
 }
 
 func (s *c10Sampler) wrap(f sample.Vec3ToFloat) sample.Vec3ToFloat {
 	return func(p vector3.Float64) float64 {
+		v := f(p)
 		if s.on {
 			s.mu.Lock()
-			s.seen = append(s.seen, F(p.X())+","+F(p.Y())+","+F(p.Z()))
+			s.seen = append(s.seen, c10Sample{F(p.X()) + "," + F(p.Y()) + "," + F(p.Z()), p, v})
 			s.mu.Unlock()
 		}
-		return f(p)
+		return v
 	}
+}
+
+// sorted position tokens of the samples taken since the last call of take()
+func (s *c10Sampler) take() (toks []string, raw []c10Sample) {
+	s.mu.Lock()
+	raw = s.seen
+	s.seen = nil
+	s.mu.Unlock()
+	toks = make([]string, len(raw))
+	for i, e := range raw {
+		toks[i] = e.pos
+	}
+	sort.Strings(toks)
+	return
 }
 
 func (sh c10Shape) field(s *c10Sampler, h float64) marching.Field {
@@ -59,6 +93,10 @@ func (sh c10Shape) field(s *c10Sampler, h float64) marching.Field {
 	case "l1":
 		f = func(p vector3.Float64) float64 {
 			return math.Abs(p.X()-sh.cx)*sh.ax + math.Abs(p.Y()-sh.cy)*sh.ay + math.Abs(p.Z()-sh.cz)*sh.az - sh.r
+		}
+	case "l1inv":
+		f = func(p vector3.Float64) float64 {
+			return sh.r - (math.Abs(p.X()-sh.cx)*sh.ax + math.Abs(p.Y()-sh.cy)*sh.ay + math.Abs(p.Z()-sh.cz)*sh.az)
 		}
 	default:
 		f = func(p vector3.Float64) float64 {
@@ -72,6 +110,33 @@ func (sh c10Shape) field(s *c10Sampler, h float64) marching.Field {
 		Domain:          geometry.NewAABB(vector3.New(sh.cx, sh.cy, sh.cz), ext),
 		Float1Functions: map[string]sample.Vec3ToFloat{modeling.PositionAttribute: s.wrap(f)},
 	}
+}
+
+// c10Dump reads the cells of the canvas (unexported state, via reflect/unsafe): one token "cx,cy,cz:index:value" per
+// non-zero cell of the position attribute, sorted.
+func c10Dump(cv *marching.MarchingCanvas) []string {
+	v := reflect.ValueOf(cv).Elem()
+	fd := v.FieldByName("float1Data")
+	data := *(*[][]float64)(unsafe.Pointer(fd.UnsafeAddr()))
+	var out []string
+	it := v.FieldByName("sections").MapRange()
+	for it.Next() {
+		if it.Key().String() != modeling.PositionAttribute {
+			continue
+		}
+		pit := it.Value().Elem().FieldByName("positions").MapRange()
+		for pit.Next() {
+			k := pit.Key()
+			cx, cy, cz := k.FieldByName("X").Int(), k.FieldByName("Y").Int(), k.FieldByName("Z").Int()
+			for idx, val := range data[pit.Value().Int()] {
+				if val != 0 {
+					out = append(out, fmt.Sprintf("%d,%d,%d:%d:%s", cx, cy, cz, idx, F(val)))
+				}
+			}
+		}
+	}
+	sort.Strings(out)
+	return out
 }
 
 // triangles of a mesh as tokens "x1,y1,z1,...,z3": exact hex positions, or weld cells
@@ -115,10 +180,18 @@ func c10March(cv *marching.MarchingCanvas, cutoff float64, parallel bool) (m mod
 	return
 }
 
-// one canvas case: the shapes are added one after the other with each of the three AddField variants on three canvases
-func (c *Ctx) c10Canvas(label string, cpu float64, shapes []c10Shape, cutoff float64) {
+type c10Opts struct {
+	marchVariants bool // also March the canvases built by the parallel AddField variants
+	cells         bool // compare the canvas cells after each call and replay the history in the Lean job model
+}
+
+const c10MaxTokens = 7000
+
+// one canvas case: the shapes are added one after the other (a history of calls on ONE canvas and attribute) with each of the
+// three AddField variants on three canvases
+func (c *Ctx) c10Canvas(label string, cpu float64, shapes []c10Shape, cutoff float64, opt c10Opts) {
 	h := 1 / cpu
-	exact := true
+	exact := cutoff <= 0
 	for _, sh := range shapes {
 		if sh.kind != "l1" {
 			exact = false
@@ -134,37 +207,73 @@ func (c *Ctx) c10Canvas(label string, cpu float64, shapes []c10Shape, cutoff flo
 		{"AddFieldParallel2", func(cv *marching.MarchingCanvas, f marching.Field) { cv.AddFieldParallel2(f) }},
 	}
 	var seqTris []string
-	var seqSamples []string
+	seqSamples := make([][]string, len(shapes))
+	seqDumps := make([][]string, len(shapes))
 	var seqCanvas *marching.MarchingCanvas
-	blocks := map[[3]int]bool{}
+	modelArgs := ""
 	for vi, v := range variants {
 		cv := marching.NewMarchingCanvas(cpu)
 		smp := &c10Sampler{on: true}
-		res := Guard(func() string {
-			for _, sh := range shapes {
-				v.add(cv, sh.field(smp, h))
+		ok := true
+		for si, sh := range shapes {
+			res := Guard(func() string { v.add(cv, sh.field(smp, h)); return "ok" })
+			toks, raw := smp.take()
+			var dump []string
+			if opt.cells {
+				dump = c10Dump(cv)
 			}
-			return "ok"
-		})
-		smp.on = false
-		sort.Strings(smp.seen)
-		if vi == 0 {
-			if res != "ok" {
-				panic("sequential AddField panicked on a generated case: " + label)
-			}
-			seqSamples = smp.seen
-			seqCanvas = cv
-			for _, s := range smp.seen {
-				var bx [3]int
-				for k, t := range strings.Split(s, ",") {
-					var bits uint64
-					fmt.Sscanf(t, "%x", &bits)
-					bx[k] = int(math.Floor(math.Float64frombits(bits) * cpu / 100))
+			if vi == 0 {
+				if res != "ok" {
+					panic("sequential AddField panicked on a generated case: " + label)
 				}
-				blocks[bx] = true
+				seqSamples[si], seqDumps[si] = toks, dump
+				if opt.cells {
+					// arguments of the model line: padded domain (from the samples taken) and the value of every sample
+					lo, hi := [3]int{1 << 60, 1 << 60, 1 << 60}, [3]int{-(1 << 60), -(1 << 60), -(1 << 60)}
+					parts := make([]string, 0, len(raw))
+					for _, e := range raw {
+						q := [3]int{int(math.Round(e.p.X() * cpu)), int(math.Round(e.p.Y() * cpu)), int(math.Round(e.p.Z() * cpu))}
+						for k := 0; k < 3; k++ {
+							if q[k] < lo[k] {
+								lo[k] = q[k]
+							}
+							if q[k]+1 > hi[k] {
+								hi[k] = q[k] + 1
+							}
+						}
+						parts = append(parts, fmt.Sprintf("%d %d %d %s", q[0], q[1], q[2], F(e.v)))
+					}
+					modelArgs += fmt.Sprintf(" %d %d %d %d %d %d %d %s", lo[0], hi[0], lo[1], hi[1], lo[2], hi[2], len(raw), strings.Join(parts, " "))
+				}
+				continue
 			}
-			c.Note(fmt.Sprintf("blocks=%d", len(blocks)))
-			c.Note("family=" + map[bool]string{true: "l1-exact", false: "sdf-cells"}[exact])
+			if res != "ok" {
+				c.Emit("c10.holds.same_output", fmt.Sprintf("1 ok %s", res), "true") // the parallel variant panicked: not the sequential result
+				ok = false
+				break
+			}
+			// every sample of the padded domain taken exactly once, at the same position — after THIS call
+			if len(seqSamples[si]) <= c10MaxTokens {
+				c10SameOutput(c, seqSamples[si], toks)
+			} else {
+				c.Note("samples-not-listed")
+			}
+			// …and the canvas holds, cell for cell, what the sequential history holds after THIS call (accumulation)
+			if opt.cells && len(seqDumps[si]) <= c10MaxTokens {
+				c10SameOutput(c, seqDumps[si], dump)
+				c.Note("cells-compared-after-call")
+			}
+		}
+		if vi == 0 {
+			seqCanvas = cv
+			blocks := map[string]bool{}
+			for _, s := range seqDumps[len(shapes)-1] {
+				blocks[s[:strings.Index(s, ":")]] = true
+			}
+			if opt.cells {
+				c.Note(fmt.Sprintf("blocks-with-data=%d", len(blocks)))
+			}
+			c.Note("family=" + map[bool]string{true: "exact-positions", false: "weld-cells"}[exact])
 			m, r := c10March(cv, cutoff, false)
 			if r != "ok" {
 				panic("sequential March panicked on a generated case: " + label)
@@ -174,18 +283,13 @@ func (c *Ctx) c10Canvas(label string, cpu float64, shapes []c10Shape, cutoff flo
 				c.Note("empty-surface")
 			}
 			c.Note(fmt.Sprintf("tris<=%d", 1<<bitsLen(len(seqTris))))
-			continue
 		}
-		if res != "ok" {
-			c.Emit("c10.holds.same_output", fmt.Sprintf("1 ok %s", res), "true") // parallel variant panicked: not the sequential result
-			continue
+		if opt.cells && ok && len(modelArgs) < 2_000_000 {
+			// the Lean job model (Model/ParCanvas.lean, `+=` as read-modify-write) replays the whole history
+			c.Emit("c10.accumulate", fmt.Sprintf("%s %d%s", v.name, len(shapes), modelArgs), c10Join("none", seqOrOwn(vi, seqDumps[len(shapes)-1], cv)))
 		}
-		// every sample of the padded domain taken exactly once, at the same position
-		if len(seqSamples) <= 6000 {
-			c10SameOutput(c, seqSamples, smp.seen)
-		} else {
-			// large domains: compare through the marched surface only (still sample-for-sample on what reaches the cells)
-			c.Note("samples-not-listed")
+		if vi == 0 || !ok || !opt.marchVariants {
+			continue
 		}
 		m, r := c10March(cv, cutoff, false)
 		if r != "ok" {
@@ -201,6 +305,13 @@ func (c *Ctx) c10Canvas(label string, cpu float64, shapes []c10Shape, cutoff flo
 	} else {
 		c10SameTris(c, label+"/AddField+MarchParallel", seqTris, c10Tris(m, exact))
 	}
+}
+
+func seqOrOwn(vi int, seq []string, cv *marching.MarchingCanvas) []string {
+	if vi == 0 {
+		return seq
+	}
+	return c10Dump(cv)
 }
 
 func bitsLen(n int) int {
@@ -229,20 +340,22 @@ func runC10M(c *Ctx) {
 		{"1block-neg", -150, -250, -50},
 	}
 	cpus := []float64{1, 2, 4}
-	pick := func(i int) (place, float64) { return places[i%len(places)], cpus[c.Rng.Intn(len(cpus))] }
+	squash := func(sh *c10Shape, keep int) {
+		// asymmetric: squash one axis by 2 (still exact); `keep` is an axis that must stay unscaled (-1: none)
+		switch k := c.Rng.Intn(4); {
+		case k == 0 && keep != 0:
+			sh.ax = 2
+		case k == 1 && keep != 1:
+			sh.ay = 2
+		case k == 2 && keep != 2:
+			sh.az = 2
+		}
+	}
 	mk := func(kind string, p place, cpu float64) c10Shape {
 		r := float64(2+c.Rng.Intn(4)) + float64(c.Rng.Intn(4))/4 // radius in cells, multiple of 1/4
 		off := func() float64 { return float64(c.Rng.Intn(5)-2) / 4 }
 		sh := c10Shape{kind: kind, cx: (p.x + off()) / cpu, cy: (p.y + off()) / cpu, cz: (p.z + off()) / cpu, r: r / cpu, ax: 1, ay: 1, az: 1}
-		// asymmetric: squash one axis by 2 (still exact)
-		switch c.Rng.Intn(4) {
-		case 0:
-			sh.ax = 2
-		case 1:
-			sh.ay = 2
-		case 2:
-			sh.az = 2
-		}
+		squash(&sh, -1)
 		if kind == "sdf" {
 			sh.cx += 0.013
 			sh.cy -= 0.007
@@ -250,27 +363,121 @@ func runC10M(c *Ctx) {
 		}
 		return sh
 	}
-	n := c.N
-	for k := 0; k < n; k++ {
-		p, cpu := pick(k + int(c.Rng.Int31n(2))*0)
+	nPlace, nSeam, nHist := (c.N+1)/2, c.N, (c.N+1)/2
+	first := c.Rng.Intn(len(places))
+	for k := 0; k < nPlace; k++ {
+		p, cpu := places[(first+k)%len(places)], cpus[c.Rng.Intn(len(cpus))]
 		kind := "l1"
 		if k%3 == 2 {
 			kind = "sdf"
 		}
 		shapes := []c10Shape{mk(kind, p, cpu)}
-		label := fmt.Sprintf("%s/cpu%g/%s", p.label, cpu, kind)
+		label := fmt.Sprintf("place/%s/cpu%g/%s", p.label, cpu, kind)
 		if k%4 == 3 {
-			// a second field on the same canvas: overlapping (accumulates) or in other blocks
+			// a second field on the same canvas in other blocks
 			q := places[c.Rng.Intn(len(places))]
-			if c.Rng.Intn(2) == 0 {
-				q = p
-			}
 			shapes = append(shapes, mk(kind, q, cpu))
 			label += "+" + q.label
 			c.Note("two-fields")
 		}
-		// an elongated box-like octahedron so that x/y/z are not interchangeable is already ensured by ax/ay/az
-		c.c10Canvas(label, cpu, shapes, 0)
+		c.Note("category=placement")
+		c.c10Canvas(label, cpu, shapes, 0, c10Opts{marchVariants: true, cells: false})
+	}
+
+	// seam-hugging shapes
+	firstSeam := c.Rng.Intn(16)
+	for j := 0; j < nSeam; j++ {
+		jj := firstSeam + j
+		axis := jj % 4              // 0 x, 1 y, 2 z, 3 corner (all three)
+		orient := (jj / 4) % 2      // 0: shape in the upper block, its lowest inside cell is cell 0 of that block; 1: mirrored
+		B := []float64{100, 0, -100, 200}[c.Rng.Intn(4)]
+		kindSel := jj % 5
+		kind, cpu := "l1", cpus[c.Rng.Intn(len(cpus))]
+		cut := []float64{0, 0, -0.25, 0.25}[c.Rng.Intn(4)] // in cells
+		switch kindSel {
+		case 2:
+			kind = "sdf"
+			if c.Rng.Intn(2) == 0 {
+				cpu = 10
+			}
+		case 4:
+			kind, cut = "l1inv", 0.25 // positive inside the shape, cutoff > 0: the neighbouring block is uniformly INSIDE
+		}
+		k := float64(2 + c.Rng.Intn(3))
+		r := k + 0.5
+		if cut == 0 && kind != "sdf" {
+			r = k + []float64{0.25, 0.5, 0.75}[c.Rng.Intn(3)]
+		}
+		seam := B + k // first inside cell is B, cell B-1 is outside
+		if orient == 1 {
+			seam = B - 1 - k // last inside cell is B-1, cell B is outside
+		}
+		ctr := [3]float64{40 + float64(c.Rng.Intn(20)), 40 + float64(c.Rng.Intn(20)), 40 + float64(c.Rng.Intn(20))}
+		for a := 0; a < 3; a++ {
+			if axis == a || axis == 3 {
+				ctr[a] = seam
+			}
+		}
+		sh := c10Shape{kind: kind, cx: ctr[0] / cpu, cy: ctr[1] / cpu, cz: ctr[2] / cpu, r: r / cpu, ax: 1, ay: 1, az: 1}
+		if axis != 3 {
+			squash(&sh, axis)
+		}
+		label := fmt.Sprintf("seam/%s/orient%d/B%g/cpu%g/%s/cut%g", []string{"x", "y", "z", "corner"}[axis], orient, B, cpu, kind, cut)
+		c.Note("category=seam")
+		c.Note("seam-axis=" + []string{"x", "y", "z", "corner"}[axis])
+		c.Note(fmt.Sprintf("seam-orient=%d", orient))
+		c.Note("seam-kind=" + kind)
+		c.Note(fmt.Sprintf("cutoff=%g", cut))
+		c.Note(fmt.Sprintf("cpu=%g", cpu))
+		c.c10Canvas(label, cpu, []c10Shape{sh}, cut/cpu, c10Opts{marchVariants: false, cells: false})
+	}
+
+	// accumulation histories: overlapping domains on one canvas and attribute
+	firstHist := c.Rng.Intn(3)
+	for j := 0; j < nHist; j++ {
+		p, cpu := places[c.Rng.Intn(len(places))], cpus[c.Rng.Intn(len(cpus))]
+		kind := "l1"
+		if j%3 == 2 {
+			kind = "sdf"
+		}
+		base := mk(kind, p, cpu)
+		if base.r*cpu > 3.5 {
+			base.r = 3.5 / cpu // keep the domains small enough to list every cell
+		}
+		var shapes []c10Shape
+		var how string
+		switch (firstHist + j) % 3 {
+		case 0: // the same shape two to four times
+			how = "same-shape-repeated"
+			for t := 0; t < 2+c.Rng.Intn(3); t++ {
+				shapes = append(shapes, base)
+			}
+		case 1: // shifted, overlapping
+			how = "shifted-overlapping"
+			shapes = append(shapes, base)
+			for t := 0; t < 1+c.Rng.Intn(3); t++ {
+				s2 := base
+				s2.cx += float64(c.Rng.Intn(5)-2) / cpu
+				s2.cy += float64(c.Rng.Intn(5)-2) / cpu
+				s2.cz += float64(c.Rng.Intn(3)-1) / cpu
+				shapes = append(shapes, s2)
+			}
+		default: // a small field inside a big one, then the big one again
+			how = "small-inside-big"
+			small := base
+			small.r = 1.5 / cpu
+			shapes = []c10Shape{base, small}
+			if c.Rng.Intn(2) == 0 {
+				shapes = append(shapes, base)
+			}
+			if c.Rng.Intn(2) == 0 {
+				shapes[0], shapes[1] = shapes[1], shapes[0]
+			}
+		}
+		c.Note("category=history")
+		c.Note("history=" + how)
+		c.Note(fmt.Sprintf("history-calls=%d", len(shapes)))
+		c.c10Canvas(fmt.Sprintf("hist/%s/%s/cpu%g/%s", how, p.label, cpu, kind), cpu, shapes, 0, c10Opts{marchVariants: false, cells: true})
 	}
 }
 
